@@ -132,6 +132,13 @@ def road_cases(ctx, size, nchains):
         for w in roadgen.staircase_gap(rng, size, chain)[:3]:
             b, _ = roadgen.cut(rng, size, base, chain, colour, rng.choice(["empty", "own-wall", "opp-flat"]), w)
             yield "road:diagonal-gap", True, pstr(size, res, od, b)
+    # a road next to a large non-spanning group of the same colour on the same starting edge
+    if size >= 4:
+        for colour in (0, 1):
+            for _ in range(3):
+                b = roadgen.blob_and_road(rng, size, colour)
+                for ply in _plies(rng):
+                    yield "road:with-large-blob", True, pstr(size, _res(rng), ply, b)
     # pure diagonals
     for colour in (0, 1):
         for anti in (False, True):
